@@ -33,10 +33,39 @@ def apps_in(v: Any, acc: Optional[Set[str]] = None) -> Set[str]:
     return acc
 
 
+def clock_encoder_form(V: Any) -> Optional[str]:
+    """None if V is int(time.mktime(time.strptime(today ++ sep ++ HH ++ ':' ++ MM, DATEFMT ++ sep ++ '%H:%M'))) with
+    today = time.strftime(DATEFMT) (current LOCAL date, same directives on both sides); else what is wrong."""
+    shape = isinstance(V, tuple) and V[:2] == ("app", "int") and isinstance(V[2], tuple) and V[2][:2] == ("app", "time.mktime") and isinstance(V[2][2], tuple) and V[2][2][:2] == ("app", "time.strptime")
+    if not shape:
+        return f"the encoded integer is {T.show(V)[:200]}; expected int(time.mktime(time.strptime(<today's local date> + ' HH:MM', <same date directives> + ' %H:%M')))"
+    text, fmt = V[2][2][2], V[2][2][3]
+    if not (T.is_c(fmt) and isinstance(fmt[1], str) and T.is_seq(text)):
+        return "text/format of the parse are not understood"
+    atoms = text[2]
+    today = [a for a in atoms if a[0] == "txt" and isinstance(a[1], tuple) and a[1][:2] == ("app", "time.strftime")]
+    if not (len(today) == 1 and len(today[0][1]) == 4 and T.is_c(today[0][1][2]) and today[0][1][3][0] == "occ" and atoms[0] == today[0]):
+        return f"the text parsed is {T.show(text)[:200]}: it does not start with time.strftime(<date format>) of the current local date"
+    datefmt = today[0][1][2][1]
+    if not fmt[1].startswith(datefmt):
+        return f"today's date is printed with {datefmt!r} but parsed with {fmt[1]!r}"
+    tail = fmt[1][len(datefmt):]
+    mt = re.fullmatch(r"(.*)%H(.*)%M", tail, flags=re.S)
+    rest = atoms[1:]
+    parts = [a for a in rest if a[0] == "txt"]
+    seps = "".join(a[1] if a[0] == "L" else "\x00" for a in rest).split("\x00")
+    if not (mt and len(parts) == 2 and len(seps) == 3 and seps[0] == mt.group(1) and seps[1] == mt.group(2) and seps[2] == ""):
+        return f"clock part {T.show(('seq', 's', tuple(rest)))[:160]} does not match the format tail {tail!r}"
+    if not all(isinstance(a[1], tuple) and a[1][0] == "part" and a[1][2] == i for i, a in enumerate(parts)):
+        return "hour and minute components are not taken in order from the split clock string"
+    return None
+
+
 def run(prog: Program, rep: Report, tier: str) -> None:
     rep.rule("R11.1", "encoder normal form: hex(LE32(int(time.mktime(time.strptime(today ++ ' ' ++ HH ++ ':' ++ MM, DATEFMT ++ ' %H:%M'))))) where today = time.strftime(DATEFMT) (no time tuple: local today) with the SAME date directives on both sides", 3)
     rep.rule("R11.2", "decoder normal form: time.strftime('%H:%M', time.localtime(<unsigned LE32 of the 4 bytes>))", 1)
     rep.rule("R11.3", "agreement and clock domain: both sides 4 bytes little-endian, mktime/localtime (an inverse pair, both LOCAL), '%H:%M' on both sides, no UTC-domain API feeds either function", 3)
+    rep.rule("R11.5", "neither function is memoised: both depend on the host's current date / time zone, which a cache key does not contain", 2)
     rep.rule("R2.6", "invalid strings raise: components bounded (no trailing ':x' accepted) and hour/minute reach a strptime with %H and %M with no handler around it", 2)
     rep.explanation = (
         "Decides the structural clauses only: the encoder's and decoder's normal forms, that they are a registered inverse pair in the same (local) clock domain, "
@@ -117,9 +146,12 @@ def run(prog: Program, rep: Report, tier: str) -> None:
         if T.contains_top(v2):
             rep.undecided("R11.2", "decoder normal form", whered, f"not understood: {T.contains_top(v2)}")
         else:
-            rep.check(canon(v2) == canon(want_dec), "R11.2", "decoder normal form", whered,
+            rep.check_term(canon(v2) == canon(want_dec), v2, "R11.2", "decoder normal form", whered,
                       f"decoder computes {T.show(v2)[:300]}; expected time.strftime('%H:%M', time.localtime(LE32 of the four bytes))", key="R11.2|normal-form")
             rep.sample({"decoder_normal_form": T.show(v2)[:300]})
+    for f_, w_ in ((fe, wheree), (fd, whered)):
+        decos = [d for d in f_.decorators if any(x in d.split("(")[0].split(".")[-1] for x in ("cache", "lru_cache", "cached_property", "memoize"))]
+        rep.check(not decos, "R11.5", f"{f_.qualname} not memoised", w_, f"{f_.qualname} is decorated with {decos}: a value computed for an earlier date or zone is returned after the date/zone changed", key=f"R11.5|{f_.qualname}")
     # ---------------- agreement / clock domain
     utc = sorted((enc_apps | dec_apps) & UTC_APIS)
     rep.check(not utc, "R11.3", "no UTC-domain API", wheree, f"{utc} (UTC domain) feed the local-time encoder/decoder: times shift by the zone offset wherever the host is not UTC", key="R11.3|utc")
